@@ -47,6 +47,8 @@ class Worker:
         self.restarts = 0
         self.heap_violation = None   # first observed heap_len > heap_cap (C33 incidental monitor)
         self.stderr_path = stderr_path
+        self.setup_jobs = []      # re-sent after every machine rebuild (panic) or process restart
+        self._need_setup = False
         self._start()
 
     def _start(self):
@@ -92,7 +94,18 @@ class Worker:
     def restart(self):
         self.close()
         self.restarts += 1
+        self._need_setup = True
         self._start()
+
+    def setup(self, jobs):
+        """jobs that establish the machine state every case relies on (libraries, helpers)"""
+        self.setup_jobs = list(jobs)
+        for sj in self.setup_jobs:
+            self.job(sj)
+
+    def use_modules(self, libs, extra_jobs=()):
+        q = ', '.join('use_module(library(%s))' % l for l in libs) + '.'
+        self.setup([{'op': 'raw', 'query': q}] + list(extra_jobs))
 
     def _readline(self, timeout):
         deadline = time.time() + timeout
@@ -123,6 +136,10 @@ class Worker:
     def job(self, job, timeout=None):
         """Sends one job; returns the reply dict. Raises WorkerDied / WorkerTimeout
         (after which the worker has been restarted)."""
+        if self._need_setup and self.setup_jobs:
+            self._need_setup = False
+            for sj in self.setup_jobs:
+                self.job(sj)
         data = (json.dumps(job) + '\n').encode('utf-8')
         try:
             self.jw.write(data)
@@ -142,6 +159,8 @@ class Worker:
                 raise
             raise WorkerDied(st)
         rep = json.loads(line.decode('utf-8', 'replace'))
+        if rep.get('panic'):
+            self._need_setup = True
         hl = rep.get('hl')
         if hl is not None and hl > rep.get('hc', 1 << 62) and self.heap_violation is None:
             self.heap_violation = {'job': job, 'heap_byte_len': hl, 'heap_byte_cap': rep.get('hc')}
